@@ -14,6 +14,12 @@ Two independent judges per generated case:
       about) is evaluated by vm_compute on the same inputs and must return the implementation's
       sound_off column after construction and after every threshold assignment, the note_array
       integer columns and the track partition.
+
+Operation histories (added after the seeded change a_no_pedal_no_reset was missed): a part, possibly
+built from notes that already carry a sound_off, then steps (threshold assigned; controls replaced,
+pruned, extended; notes edited; part rebuilt from the part's notes; note-array round trip).  After
+every step both judges look at the CURRENT notes / controls / threshold only -- the result must not
+remember anything (Props/C14.v: history_independent, no_pedal_after_history, carried_sound_off_ignored).
 """
 import json
 import math
@@ -89,7 +95,7 @@ def gen_case(rng, tie_stream=False):
         else:
             on = rng.randint(0, span)
         dur = rng.choice([0, 0, 1, 2, 4, 8, 16, rng.randint(0, 64), rng.randint(0, span)])
-        notes.append(dict(midi_pitch=p, on=on, off=on + dur, velocity=rng.randint(1, 127),
+        notes.append(dict(midi_pitch=p, on=on, off=on + dur, velocity=rng.randint(1, 127) if rng.random() < 0.95 else rng.choice([0, 127]),
                           channel=rng.randint(0, 15) if rng.random() < 0.5 else rng.choice([0, 1]),
                           track=rng.choice([0, 0, 0, 1, 2, 5])))
     order = rng.random()
@@ -106,7 +112,7 @@ def gen_case(rng, tie_stream=False):
     if rng.random() < 0.2:
         thrs.append(thr)
     ppq, mpq = rng.choice(PAIRS) if rng.random() < 0.8 else (rng.randint(1, 2000), rng.randint(1000, 2 * 10 ** 6))
-    return dict(notes=notes, ctrls=ctrls, thr=thr, thrs=thrs, ppq=ppq, mpq=mpq, scale=16)
+    return dict(notes=notes, ctrls=ctrls, thr=thr, thrs=thrs, ppq=ppq, mpq=mpq, scale=rng.choice([16, 16, 16, 16, 1, 4, 1024]))
 
 
 def has_order_tie(case):
@@ -116,6 +122,25 @@ def has_order_tie(case):
     ped = [c["t"] for c in case["ctrls"] if c["number"] == 64]
     if len(set(ped)) != len(ped):
         return True
+    ns = case["notes"]
+    for i, a in enumerate(ns):
+        if a["on"] == a["off"]:
+            for j, b in enumerate(ns):
+                if i != j and b["midi_pitch"] == a["midi_pitch"] and b["on"] == a["on"]:
+                    return True
+    return False
+
+
+def tie_matters(case, thr):
+    """An order tie changes the result under threshold thr only if two pedal events at one time
+    differ in their thresholded state (equal rows sort to equal arrays), or a zero-length note
+    shares its onset with another note of its pitch."""
+    seen = {}
+    for c in case["ctrls"]:
+        if c["number"] == 64:
+            s_ = c["value"] > thr
+            if seen.setdefault(c["t"], s_) != s_:
+                return True
     ns = case["notes"]
     for i, a in enumerate(ns):
         if a["on"] == a["off"]:
@@ -236,15 +261,19 @@ def oracle(case, res, tie):
     if res["err"]:
         return [res["err"]]
     cols = [(case["thr"], res["obs0"])] + list(zip(case["thrs"], res["hist"]))
+    no_pedal = not any(c["number"] == 64 for c in case["ctrls"])
     for thr, col in cols:
         if len(col) != len(ns):
             bad.append("sound_off column has %d entries for %d notes" % (len(col), len(ns)))
             continue
+        open_tie = tie and tie_matters(case, thr)
         for i, so in enumerate(col):
             off = F(ns[i]["off"], sc)
             if so < off:
                 bad.append("threshold %d note %d: sound_off %s < note_off %s" % (thr, i, float(so), float(off)))
-            elif not tie:
+            elif no_pedal and so != off:
+                bad.append("threshold %d note %d: no pedal events, sound_off %s differs from the release %s" % (thr, i, float(so), float(off)))
+            elif not open_tie:
                 exp = spec_sound_off(case, thr, i)
                 if so != exp:
                     bad.append("threshold %d note %d (pitch %d, on %s, off %s): sound_off %s, the pedal dictates %s"
@@ -588,6 +617,7 @@ def oracle_state(st, obs, sc, label):
                    [x["on"] / sc for x in ns], [x["off"] / sc for x in ns])], tie
     thr = st["thr"]
     no_pedal = not any(c["number"] == 64 for c in st["ctrls"])
+    open_tie = tie and tie_matters(v, thr)
     for i, so in enumerate(obs["so"]):
         off = F(ns[i]["off"], sc)
         if so < off:
@@ -597,7 +627,7 @@ def oracle_state(st, obs, sc, label):
                        % (label, i, float(so), float(off)))
         elif thr >= 127 and so != off:
             bad.append("%s note %d: threshold %d, sound_off %s differs from the release %s" % (label, i, thr, float(so), float(off)))
-        elif not tie:
+        elif not open_tie:
             exp = spec_sound_off(v, thr, i)
             if so != exp:
                 bad.append("%s note %d (pitch %d, on %s, off %s, threshold %d): sound_off %s, the pedal dictates %s"
@@ -777,7 +807,7 @@ def gen_perf_case(rng):
         progs = [dict(program=rng.randint(0, 127), t=rng.randint(0, 30), track=rng.choice(tr_pool + [rng.randint(0, 9)]),
                       channel=rng.randint(0, 15)) for i in range(rng.randint(0, 2))]
         parts.append(dict(notes=notes, ctrls=ctrls, progs=progs))
-    return dict(parts=parts, scale=16)
+    return dict(parts=parts, scale=16, again=rng.choice([None, None, "sanitize", "rewrap", "single"]))
 
 
 def run_perf(case):
@@ -801,7 +831,12 @@ def run_perf(case):
         # PerformedNote fills a missing track with 0 at construction; what the renumbering sees is the stored value
         olds.append(([n["track"] for n in pp.notes], [c["track"] for c in pp.controls], [p["track"] for p in pp.programs]))
     try:
-        perf = P.Performance(pps)
+        again = case.get("again")
+        perf = P.Performance(pps[0] if again == "single" and len(pps) == 1 else pps)
+        if again == "sanitize":
+            perf.sanitize_track_numbers()  # a second renumbering of the renumbered parts
+        elif again == "rewrap":
+            perf = P.Performance(list(perf.performedparts))  # a performance made of another performance's parts
     except Exception as e:
         return "%s: %s" % (type(e).__name__, e)
     out = []
@@ -888,12 +923,26 @@ def run(ctx):
                 "same/different channels, zero-length notes, sorted/unsorted/reversed order; 0-20 controls, 70% sustain (64) with values "
                 "weighted to 0/127/63/64/65/thr-1/thr/thr+1, times before the first note, after the last release, exactly on onsets/releases "
                 "and one step off them; initial threshold from {0,1,63,64,126,127} or random; 1-6 later assignments; ppq/mpq from 6 pairs or random). "
+                "Operation histories = such a part, 35% of them built from notes that already carry a sound_off >= release (half of those without any "
+                "pedal event), followed by 1-6 steps: threshold assignment 12%, controls replaced / extended (pedal added later) / one deleted / cleared / "
+                "all pedal events removed (by assignment and in place) then threshold assigned 40%, note_off or note_on edited / note added / deleted then "
+                "threshold assigned 20%, part rebuilt from the part's note dicts / note objects / copies with same, pedal-free or new controls 18%, "
+                "from_note_array(note_array()) 10%; 45% of the assigned thresholds equal the current one; judged after construction and after every step. "
+                "Time grid 1/16 s (4 in 7), 1, 1/4, 1/1024 s. "
                 "Non-trivial = a case in which at least one note's sounding end differs from its release under at least one of the thresholds "
-                "(pedal extension, possibly clipped by a re-strike); counted distinct by the full case.")
+                "(pedal extension, possibly clipped by a re-strike), a history with such a state or with a carried sound_off different from the release, "
+                "a performance with more than one (part, track) pair; counted distinct by the full case.")
     ctx.trusted = ["Coq 8.16.1 kernel incl. vm_compute", "harness/props/c14.py (generator, literal printer, Python oracle)",
                    "numpy argsort on distinct keys sorts ascending"]
     ctx.assumptions = [
-        "times are multiples of 1/16 s below 2^12 so that float64/float32 arithmetic of the implementation is exact; compared exactly as rationals",
+        "times are multiples of 1/scale s (scale 1, 4, 16 or 1024) with numerators below 2^16, so that the float64/float32 arithmetic of the implementation "
+        "is exact; compared exactly as rationals",
+        "histories: the oracle and the Coq model are fed the notes / controls / threshold the harness's own bookkeeping of the steps (abs_apply) arrives at; "
+        "the part's pitch, onset and release columns are compared with that bookkeeping after every step; notes carrying a sound_off below their release "
+        "(which PerformedNote rejects) and edits that would put a release before its onset are not generated",
+        "an order tie is open under a threshold only if two pedal events at one time differ in value > threshold, or a zero-length note shares its onset "
+        "with a note of its pitch; the direct oracle compares with the specification whenever the tie is not open; no-pedal identity, threshold >= 127 identity, "
+        "sound_off >= note_off and equality with a part built afresh are required on every state",
         "main stream: pedal events at pairwise distinct times and no zero-length note sharing its onset with another note of its pitch "
         "(numpy's default argsort leaves the order of equal keys unspecified); inputs with such ties go to a separate stream on which only "
         "totality, sound_off >= note_off and identity at threshold >= 127 are required, agreement with the stable-order model is counted",
@@ -1080,6 +1129,8 @@ def run(ctx):
         if len({o for o, _ in pairs}) > 1:
             ctx.nontrivial("tracks" + json.dumps(pc, sort_keys=True))
         ctx.count("perf:parts=%d" % len(pc["parts"]))
+        if pc.get("again"):
+            ctx.count("perf:again=%s" % pc["again"])
         tr_terms.append(clist([ctuple([ctuple([cz(o[0]), cz(o[1])]), cz(nw)]) for o, nw in pairs]))
         tr_cases.append((pc, pairs))
     if ok:
